@@ -10,12 +10,16 @@ import (
 	"golang.org/x/tools/go/ssa"
 )
 
-// E-nonnil: "result i of this function is never nil", decided structurally. A value is non-nil
+// E-nonnil: "result i of this function is never nil", decided structurally, three-valued: a value is
+// NONNIL, may be an explicit NIL (the nil constant can flow into it), or UNKNOWN (parameters of
+// functions with unknown callers, loaded fields, results of calls outside the module: nothing is
+// claimed about them). A value is non-nil
 // when it is a boxed concrete value (MakeInterface of a non-pointer, or of a non-nil pointer), the
 // address of an allocation, a closure, a value under a dominating `!= nil` test of itself, a phi
 // of such values, or result i of a call of a module function with the same property (assumed for
 // functions on the current stack: the property is a greatest fixed point over recursion).
 type nonNilEngine struct {
+	reach map[string]int // nilReach memo: 1 in progress, 2 yes, 3 no
 	p     *Program
 	depth int
 	newNo bool
@@ -26,7 +30,7 @@ type nonNilEngine struct {
 }
 
 func newNonNilEngine(p *Program) *nonNilEngine {
-	return &nonNilEngine{p: p, memo: map[string]int{}, why: map[string]string{}, whyAt: map[string]token.Pos{}}
+	return &nonNilEngine{p: p, reach: map[string]int{}, memo: map[string]int{}, why: map[string]string{}, whyAt: map[string]token.Pos{}}
 }
 
 func nilable(t types.Type) bool {
@@ -236,8 +240,19 @@ func (e *nonNilEngine) valueNonNil(v ssa.Value, at *ssa.BasicBlock, seen map[ssa
 		if mc, ok := x.Call.Value.(*ssa.MakeClosure); ok {
 			return e.compute(mc.Fn.(*ssa.Function), 0)
 		}
-		if b, ok := x.Call.Value.(*ssa.Builtin); ok && b.Name() == "append" {
-			return true
+		if b, ok := x.Call.Value.(*ssa.Builtin); ok && b.Name() == "append" && len(x.Call.Args) == 2 {
+			// append yields nil only for a nil slice extended by nothing
+			if e.valueNonNil(x.Call.Args[0], at, seen, d+1) {
+				return true
+			}
+			if sl, ok := x.Call.Args[1].(*ssa.Slice); ok && sl.Low == nil && sl.High == nil {
+				if pt, ok := sl.X.Type().Underlying().(*types.Pointer); ok {
+					if at2, ok := pt.Elem().Underlying().(*types.Array); ok && at2.Len() > 0 {
+						return true
+					}
+				}
+			}
+			return false
 		}
 	case *ssa.UnOp:
 		if x.Op == token.MUL {
@@ -310,16 +325,148 @@ func (e *nonNilEngine) paramNonNil(par *ssa.Parameter) bool {
 	return ok
 }
 
+// nilReach: the nil constant can flow into v (a may-analysis, least fixed point: what is still
+// being computed counts as "no"). Values about which nothing is known (loaded fields, results of
+// calls outside the module, parameters of functions with unknown callers) are not nil-reaching.
+func (e *nonNilEngine) nilReach(v ssa.Value, at *ssa.BasicBlock, seen map[ssa.Value]bool, d int) bool {
+	if v == nil || d > 12 || seen[v] || !nilable(v.Type()) {
+		return false
+	}
+	seen[v] = true
+	if at != nil && nilGuarded(v, at) {
+		return false
+	}
+	switch x := v.(type) {
+	case *ssa.Const:
+		return x.IsNil()
+	case *ssa.MakeInterface:
+		return nilable(x.X.Type()) && e.nilReach(x.X, at, seen, d+1)
+	case *ssa.ChangeInterface:
+		return e.nilReach(x.X, at, seen, d+1)
+	case *ssa.ChangeType:
+		return e.nilReach(x.X, at, seen, d+1)
+	case *ssa.Phi:
+		for i, ed := range x.Edges {
+			if e.nilReach(ed, x.Block().Preds[i], seen, d+1) {
+				return true
+			}
+		}
+	case *ssa.Extract:
+		if call, ok := x.Tuple.(*ssa.Call); ok {
+			if cal := call.Call.StaticCallee(); cal != nil && inModule(cal) {
+				return e.resultNilReach(cal, x.Index)
+			}
+			if mc, ok := call.Call.Value.(*ssa.MakeClosure); ok {
+				return e.resultNilReach(mc.Fn.(*ssa.Function), x.Index)
+			}
+		}
+	case *ssa.Call:
+		if cal := x.Call.StaticCallee(); cal != nil && inModule(cal) {
+			return e.resultNilReach(cal, 0)
+		}
+		if mc, ok := x.Call.Value.(*ssa.MakeClosure); ok {
+			return e.resultNilReach(mc.Fn.(*ssa.Function), 0)
+		}
+		if b, ok := x.Call.Value.(*ssa.Builtin); ok && b.Name() == "append" && len(x.Call.Args) == 2 {
+			if sl, ok := x.Call.Args[1].(*ssa.Slice); ok && sl.Low == nil && sl.High == nil {
+				if pt, ok := sl.X.Type().Underlying().(*types.Pointer); ok {
+					if at2, ok := pt.Elem().Underlying().(*types.Array); ok && at2.Len() > 0 {
+						return false
+					}
+				}
+			}
+			return e.nilReach(x.Call.Args[0], at, seen, d+1)
+		}
+	case *ssa.UnOp:
+		if x.Op == token.MUL {
+			if al, ok := x.X.(*ssa.Alloc); ok {
+				sts := storesInto(al)
+				if len(sts) == 0 {
+					return true // a zero-valued local
+				}
+				for _, st := range sts {
+					if st.Addr == ssa.Value(al) && e.nilReach(st.Val, st.Block(), seen, d+1) {
+						return true
+					}
+				}
+			}
+		}
+	case *ssa.Parameter:
+		fn := x.Parent()
+		idx := -1
+		for i, q := range fn.Params {
+			if q == x {
+				idx = i
+			}
+		}
+		if idx < 0 || e.p == nil || !staticCallersOnly(e.p, fn) {
+			return false
+		}
+		key := fmt.Sprintf("%p/par/%d", fn, idx)
+		switch e.reach[key] {
+		case 1, 3:
+			return false
+		case 2:
+			return true
+		}
+		e.reach[key] = 1
+		r := false
+		for _, in := range e.p.CallGraph().Nodes[fn].In {
+			args := in.Site.Common().Args
+			if idx < len(args) && e.nilReach(args[idx], in.Site.Block(), map[ssa.Value]bool{}, 0) {
+				r = true
+				break
+			}
+		}
+		if r {
+			e.reach[key] = 2
+		} else {
+			e.reach[key] = 3
+		}
+		return r
+	}
+	return false
+}
+
+func (e *nonNilEngine) resultNilReach(fn *ssa.Function, idx int) bool {
+	key := fmt.Sprintf("%p/%d", fn, idx)
+	switch e.reach[key] {
+	case 1, 3:
+		return false
+	case 2:
+		return true
+	}
+	e.reach[key] = 1
+	r := false
+	for _, b := range fn.Blocks {
+		ret, isRet := b.Instrs[len(b.Instrs)-1].(*ssa.Return)
+		if !isRet || idx >= len(ret.Results) {
+			continue
+		}
+		if e.nilReach(ret.Results[idx], b, map[ssa.Value]bool{}, 0) {
+			r = true
+			break
+		}
+	}
+	if r {
+		e.reach[key] = 2
+	} else {
+		e.reach[key] = 3
+	}
+	return r
+}
+
 // nonNilSites: in the given functions, every method invocation / field access / dereference whose
 // receiver is (result i of) a call of a module function in pkgs, without a dominating nil test.
 type nonNilSite struct {
-	fn     *ssa.Function
-	pos    token.Pos
-	callee *ssa.Function
-	idx    int
-	use    string
-	ok     bool
-	why    string
+	undecided bool // neither provably non-nil nor reachable by an explicit nil
+	fn        *ssa.Function
+	pos       token.Pos
+	callee    *ssa.Function
+	idx       int
+	use       string
+	ok        bool
+	why       string
 }
 
 func (e *nonNilEngine) sites(fns []*ssa.Function) []nonNilSite {
@@ -365,7 +512,11 @@ func (e *nonNilEngine) sites(fns []*ssa.Function) []nonNilSite {
 				s := nonNilSite{fn: fn, pos: ins.Pos(), callee: callee, idx: idx, use: use}
 				s.ok = e.resultNonNil(callee, idx)
 				if !s.ok {
-					s.why = e.explain(callee, idx, 0)
+					if e.resultNilReach(callee, idx) {
+						s.why = e.explain(callee, idx, 0)
+					} else {
+						s.undecided = true
+					}
 				}
 				out = append(out, s)
 			}
